@@ -33,8 +33,7 @@ macro_rules! gv_enc {
             $model;
             match &r {
                 Ok(w) => {
-                    kani::cover!(be, "big endian");
-                    kani::cover!(!be, "little endian");
+                    kani::cover!(true, "encoded");
                     assert!(w.size() == $m.len, "GVariant: encoded length differs from the specification");
                     assert!(same32(&buf, &model32(&$m)), "GVariant: encoded bytes differ from the specification");
                 }
@@ -151,5 +150,19 @@ gv_enc!(@at c05_enc_mt_p4, (4, kani::any()), (bool, u64), &MT, opt_u64, |m, v| {
     m.align(8);
     if v.0 {
         m.u64(v.1)
+    }
+});
+
+// concrete byte order cells
+gv_enc!(@at c05_enc_mu_p1_le, (1, false), (bool, u32), &MU, opt_u32, |m, v| {
+    m.align(4);
+    if v.0 {
+        m.u32(v.1)
+    }
+});
+gv_enc!(@at c05_enc_mu_p1_be, (1, true), (bool, u32), &MU, opt_u32, |m, v| {
+    m.align(4);
+    if v.0 {
+        m.u32(v.1)
     }
 });
